@@ -63,7 +63,7 @@ func c15Universe() []c15Entry {
 	return u
 }
 
-var c15Kinds = []string{"create", "delete", "pause", "readonly", "publish", "publish-paused", "publish-subject", "publish-async",
+var c15Kinds = []string{"create", "delete", "pause", "readonly", "make-writable", "publish", "publish-paused", "publish-subject", "publish-async",
 	"subscribe", "subscribe-resume", "subscribe-group-takeover", "fetch-metadata", "fetch-partition-metadata", "set-cursor", "fetch-cursor",
 	"join-group", "leave-group", "fetch-assignments", "report-coordinator"}
 
@@ -374,6 +374,14 @@ func runC15(c c15Case, o *vfutil.Obs) *vfutil.Failure {
 			if f := prepPause(); f != nil {
 				return f
 			}
+		case "make-writable":
+			// the stream is read-only (set by the admin); the client tries to make it writable
+			ctx, cancel := ctxFor("admin", 10*time.Second)
+			_, err := a.SetStreamReadonly(ctx, &client.SetStreamReadonlyRequest{Name: res, Readonly: true})
+			cancel()
+			if err != nil {
+				return vfutil.Failf("harness/prep", "read-only %s: %v", res, err)
+			}
 		case "subscribe-group-takeover":
 			ctx, cancel := ctxFor("admin", 0)
 			adminCancel = cancel
@@ -403,7 +411,10 @@ func runC15(c c15Case, o *vfutil.Obs) *vfutil.Failure {
 			_, callErr = a.DeleteStream(ctx, &client.DeleteStreamRequest{Name: res})
 		case "pause":
 			allowed = c15Allowed(policy, cl, res, "PauseStream")
-			_, callErr = a.PauseStream(ctx, &client.PauseStreamRequest{Name: res})
+			_, callErr = a.PauseStream(ctx, &client.PauseStreamRequest{Name: res, ResumeAll: call.Arg%2 == 1})
+		case "make-writable":
+			allowed = c15Allowed(policy, cl, res, "SetStreamReadonly")
+			_, callErr = a.SetStreamReadonly(ctx, &client.SetStreamReadonlyRequest{Name: res, Readonly: false})
 		case "readonly":
 			allowed = c15Allowed(policy, cl, res, "SetStreamReadonly")
 			_, callErr = a.SetStreamReadonly(ctx, &client.SetStreamReadonlyRequest{Name: res, Readonly: true})
